@@ -58,18 +58,37 @@ pub fn h64<T: Hash>(v: &T) -> u64 {
     }
 }
 
-/// 128-bit fingerprint of a byte string.
+/// 128-bit fingerprint of a byte string: two independently keyed 64-bit lanes, eight bytes per
+/// step (multiply-rotate mixing, murmur-style finaliser).
 pub fn fp128(bytes: &[u8]) -> u128 {
-    let mut a = Fnv::new(0x1234_5678);
-    let mut b = Fnv::new(0x9abc_def0_1357);
-    a.write(bytes);
-    // second lane: different mixing (rotate-multiply) so the two lanes are not correlated
-    let mut z: u64 = b.0;
-    for x in bytes {
-        z = (z.rotate_left(5) ^ (*x as u64)).wrapping_mul(0x2545F4914F6CDD1D);
+    #[inline]
+    fn fin(mut z: u64) -> u64 {
+        z ^= z >> 33;
+        z = z.wrapping_mul(0xff51afd7ed558ccd);
+        z ^= z >> 33;
+        z = z.wrapping_mul(0xc4ceb9fe1a85ec53);
+        z ^= z >> 33;
+        z
     }
-    b.0 = z;
-    ((a.finish() as u128) << 64) | (b.finish() as u128)
+    let mut a: u64 = 0x9E3779B97F4A7C15 ^ (bytes.len() as u64);
+    let mut b: u64 = 0xC2B2AE3D27D4EB4F ^ ((bytes.len() as u64) << 32);
+    let mut chunks = bytes.chunks_exact(8);
+    for c in &mut chunks {
+        let w = u64::from_le_bytes([c[0], c[1], c[2], c[3], c[4], c[5], c[6], c[7]]);
+        a = (a ^ w).wrapping_mul(0x87C37B91114253D5).rotate_left(31);
+        b = (b.rotate_left(27) ^ w.wrapping_mul(0x4CF5AD432745937F)).wrapping_mul(0x52DCE729);
+        b = b.wrapping_add(0x38495AB5) ^ (b >> 29);
+    }
+    let rem = chunks.remainder();
+    if !rem.is_empty() {
+        let mut buf = [0u8; 8];
+        buf[..rem.len()].copy_from_slice(rem);
+        let w = u64::from_le_bytes(buf) ^ ((rem.len() as u64) << 56);
+        a = (a ^ w).wrapping_mul(0x87C37B91114253D5).rotate_left(31);
+        b = (b.rotate_left(27) ^ w.wrapping_mul(0x4CF5AD432745937F)).wrapping_mul(0x52DCE729);
+        b = b.wrapping_add(0x38495AB5) ^ (b >> 29);
+    }
+    ((fin(a) as u128) << 64) | (fin(b ^ a.rotate_left(17)) as u128)
 }
 
 /// Run `f`, converting a panic into `Err(message)`. The process-wide panic hook is silenced by
